@@ -170,7 +170,7 @@ CHECKS = {
 
 CHECKS["C20"] = {
     "level": "exploration", "engine": "protomon", "lanes": [],
-    "rule": "a driver is generated from the CURRENT sources for every message type reachable through the package's module tree; per type: 4 fully populated instances (cycling through oneof variants) + N random instances are encoded, decoded (must equal), re-encoded (must be byte-identical); the harness's own wire reader extracts (field number, wire type, occurrences) of the fully populated encodings and compares them with what the PINNED schema of the unchanged tree predicts; truncated / bit-flipped bytes must decode to Err or to a value that itself round-trips, never panic; for the messages that are deep field-identical with osmosis-std's independently generated bindings the bytes are decoded and re-encoded by the reference type and must be byte-identical; every registered TYPE_URL must equal '/' + the fully-qualified name derived at run time from the Rust type path (and the reference binding's URL where shared), Any packing must round-trip and reject mismatched / prefixed / suffixed URLs; the (value -> protobuf name) table of every enumeration as observed at run time must equal the pinned one; thorough adds the same driver under Miri on a sample of types; distinct = distinct (type, oneof selector, observed wire shape) triples compared with the pinned definition",
+    "rule": "a driver is generated from the CURRENT sources for every message type reachable through the package's module tree; per type: 4 fully populated instances (cycling through oneof variants) + N random instances are encoded, decoded (must equal), re-encoded (must be byte-identical); the harness's own wire reader extracts (field number, wire type, occurrences) of the fully populated encodings and compares them with what the PINNED schema of the unchanged tree predicts; truncated / bit-flipped bytes must decode to Err or to a value that itself round-trips, never panic; for the messages that are deep field-identical with osmosis-std's independently generated bindings the bytes are decoded and re-encoded by the reference type and must be byte-identical; every registered TYPE_URL must equal '/' + the fully-qualified name derived at run time from the Rust type path (and the reference binding's URL where shared), Any packing must round-trip and reject mismatched / prefixed / suffixed URLs; a name-valued instance (every top-level scalar carries a value derived from its field NAME) is decoded with the harness's wire reader and each pinned field number must carry the value of the pinned field name (catches swapped numbers between same-typed fields); map entries must have the key / value wire types of the pinned map<K,V>; a pinned string field must reject a non-UTF-8 payload and a pinned bytes field must accept and re-encode it; the (value -> protobuf name) table of every enumeration as observed at run time must equal the pinned one; thorough adds the same driver under Miri on a sample of types; distinct = distinct (type, oneof selector, observed wire shape) triples compared with the pinned definition",
     "assumptions": ["the pinned schema (protomon/baseline/schema.json, extracted from the unchanged tree) is the reference for the 549 messages no independent binding shares; it was itself cross-checked against osmosis-std for the 763 deep-identical shared messages", "values are sampled; map fields carry at most one entry in byte-equality checks (prost emits map entries in hash order)", "google.protobuf.* and tendermint.* field types are re-exports of other crates and are generated as defaults", "three generated files (ibc.applications.perm.v1, initia.crypto.v1beta1.ethsecp256k1, initia.tx.v1) are not included in the module tree and are therefore not reachable at run time"],
 }
 
